@@ -43,6 +43,8 @@ func init() {
 			ruleArraySlices(c, r, "")
 			ruleRingWriters(c, r, "")
 			ruleApplyOps(c, r, "")
+			ruleOpSiblings(c, r, "")
+			ruleCheckIDs(c, r, "")
 			ruleXZReaderBounds(c, r)
 			t := getChunkTables(c, r, "")
 			ruleControlByte(c, r, t, "", true)
